@@ -1,5 +1,6 @@
 import Rare.Base.Proto
 import Rare.Model.C15
+import Rare.Model.C15Tail
 /-!
 Driver of C15: `follow <notify|poll> <reopen> <tail> <history>` – the model's `expectedDelivered`.
 
@@ -187,7 +188,87 @@ def runPoll (cfg : PCfg) (s0 : PSt UInt8) (startHeld : Bool) (ops : List Op) : P
 def answer (d : Bytes) (eof : Bool) : String :=
   s!"ok {Hex.enc d} eof={if eof then 1 else 0} drainerr=0"
 
+/-! ### observation point (b): `tailb <cfg/history/lens>` (see harness/corr/c15tail.go)
+
+The history is executed on the follow LTS as above (`expectedDelivered` and whether the follow reader ended by
+itself); that stream goes through `Rare.C15.Tail.tailToChan` (the scanner of C04 inside the batching loop
+with the batch slice as a heap object) under the flush-timer oracle given by the batch lengths that were
+observed: "the timer had expired exactly at the last line of every observed batch".  `recv` is what the
+model recorded at the moment of each send (`sentAt`), `late` what the batches read as in the final state. -/
+
+def parseTailOp (st : String) : Option Op :=
+  match st.toList with
+  | 'a' :: r => (Hex.dec (String.ofList r)).map .append
+  | 'Z' :: r => (Hex.dec (String.ofList r)).map fun b => .append (b ++ [nl])
+  | 'p' :: _ => some .pause
+  | ['w'] => some .drain
+  | ['d'] => some .removeDrained
+  | ['c'] => some .create
+  | [] => some .skip
+  | _ => none
+
+def renderBatch (start : Nat) (lines : List Bytes) : String :=
+  s!"{start}:{",".intercalate (lines.map Hex.enc)}"
+
+def renderBatches (bs : List (Nat × List Bytes)) : String :=
+  if bs.isEmpty then "." else "|".intercalate (bs.map fun b => renderBatch b.1 b.2)
+
+/-- "the timer had expired when line `k` was appended" ⇔ an observed batch ended with line `k` -/
+def timerOf (lens : List Nat) : Nat → Bool :=
+  let ends := (lens.foldl (fun (acc : List Nat × Nat) l => (acc.1 ++ [acc.2 + l], acc.2 + l)) ([], 0)).1
+  fun k => ends.contains (k + 1)
+
+def tailb (blob : String) : String :=
+  match blob.splitOn "/" with
+  | [cfgS, histS, lensS] =>
+    match cfgS.splitOn "." with
+    | [via, mode, reopenS, tailS, batchS, _, _, _, _, attemptsS] =>
+      let reopen := reopenS == "1"
+      let tail := tailS == "1"
+      let steps := histS.splitOn "_"
+      let first := steps.headD ""
+      let c0 : Option Bytes :=
+        match first.toList with
+        | 'i' :: r => Hex.dec (String.ofList r)
+        | _ => none
+      if first.startsWith "i" && c0.isNone then "bad-args initial" else
+      if !(first.startsWith "i") && first != "n" then "bad-args initial" else
+      match (steps.drop 1).mapM parseTailOp, batchS.toNat?, attemptsS.toNat?,
+            (if lensS == "." then some [] else (lensS.splitOn "_").mapM String.toNat?) with
+      | some ops, some batch, some attempts, some lens =>
+        if c0.isNone && !reopen then
+          (if via == "V" then "ok newerr" else "ok eof=1 errs=1 recv=. late=. read=-") else
+        let outcome : Option (Bytes × Bool) :=
+          if mode == "notify" then
+            let run := fun (prefD kf : Bool) =>
+              runNotify { capW := 1, capD := 1, reopen := reopen } prefD kf (ninit c0 tail) false ops
+            let a := run true true
+            let others := [run false true, run true false, run false false]
+            if others.all fun o => o.delivered == a.delivered && (o.rd == .ended) == (a.rd == .ended) then
+              some (a.delivered, a.rd == .ended)
+            else none
+          else if mode == "poll" then
+            let s := runPoll { attempts := attempts, reopen := reopen } (pinit c0 tail) false ops
+            some (s.delivered, s.rd == .ended)
+          else none
+        match outcome with
+        | none => "schedule-dependent"
+        | some (d, ended) =>
+          let timer := timerOf lens
+          let bufSize := 131072        -- batchers.ReadAheadBufferSize
+          -- V: the harness ends the stream when everything was delivered; T: it ends only if the follow reader does
+          let t := if via == "V" || ended then Rare.C15.Tail.tailToChan "f" bufSize batch timer d []
+                   else Rare.C15.Tail.live "f" bufSize batch timer d []
+          if t.status == .stuck then "model-stuck" else
+          let recv := (t.b.out.zip t.sentAt).map fun x => (x.1.start, x.2)
+          let late := t.batches.map fun x => (x.2.1, x.2.2)
+          s!"ok eof={if ended then 1 else 0} errs=0 recv={renderBatches recv} late={renderBatches late} read={if via == "V" then Hex.enc d else "-"}"
+      | _, _, _, _ => "bad-args"
+    | _ => "bad-args cfg"
+  | _ => "bad-args blob"
+
 def handle : List String → String
+  | ["tailb", blob] => tailb blob
   | ["follow", mode, reopenS, tailS, hist] =>
     let reopen := reopenS == "1"
     let tail := tailS == "1"
